@@ -277,7 +277,11 @@ func scLaggingSnapshot(d *Driver) {
 		return
 	}
 	if d.c.Nodes[f].Cfg.Async && len(oth) >= 2 && pct(d.r, 50) {
-		scApplyVsSnapshot(d, l, f)
+		if pct(d.r, 50) {
+			scApplyVsSnapshot(d, l, f)
+		} else {
+			scSnapshotAckAfterTermChange(d, l, f)
+		}
 		return
 	}
 	if pct(d.r, 40) {
@@ -359,8 +363,108 @@ func scLaggingSnapshot(d *Driver) {
 		}
 	}
 	d.with(p, 20)
+	if d.frozenAppend[f] && pct(d.r, 60) {
+		// the term changes while the write that installs the snapshot is still queued
+		d.frozenReady[f] = false
+		d.pipeline(f) // the write is handed to the (stalled) append thread
+		if oo := d.others(f); len(oo) > 0 {
+			d.c.Do(Step{Act: "Campaign", Node: d.pick(oo)})
+			d.with(p, 30+d.r.Intn(30))
+		}
+	}
 	d.unfreeze()
 	d.with(p, 80)
+}
+
+// follower f (asynchronous storage writes) is caught up by a snapshot; while its append thread is still
+// installing it, f learns of a new term, so the acknowledgement of the snapshot carries the old one
+func scSnapshotAckAfterTermChange(d *Driver, l *AppNode, f uint64) {
+	d.frozenApply[f] = false // (a node does not accept a snapshot while its application lags)
+	d.runNode(f)
+	d.isolate([]uint64{f})
+	d.dropWhere(func(m *pb.Message) bool { return m.GetTo() == f || m.GetFrom() == f })
+	d.propose(l, 2+d.r.Intn(3), false)
+	d.waitFor(60, func() bool {
+		st, perr := safeState(l.RN)
+		return perr != "" || (st.Commit == st.LastIndex && st.Applied == st.Commit)
+	})
+	if d.c.up(l.ID) == nil || !safeIsLeader(l.RN) {
+		d.heal()
+		d.settle(100)
+		return
+	}
+	if _, hi := d.c.snapBounds(l); hi > 1 {
+		if d.c.Do(Step{Act: "Snapshot", Node: l.ID, K: hi}) {
+			d.c.Do(Step{Act: "Compact", Node: l.ID, K: hi})
+		}
+	}
+	d.heal()
+	d.holdTypes[pb.MsgSnap] = true
+	snapOnWire := func() bool {
+		for _, nm := range d.c.Net {
+			if nm.M.GetType() == pb.MsgSnap && nm.M.GetTo() == f {
+				return true
+			}
+		}
+		return false
+	}
+	p0 := calm
+	p0.Tick = 0
+	for k := 0; k < 25 && !snapOnWire(); k++ {
+		d.c.Do(Step{Act: "Tick", Node: l.ID})
+		d.with(p0, 12)
+		d.reportStaleSnapshots()
+	}
+	d.frozenAppend[f] = true
+	d.releaseHolds()
+	d.deliverSel(MsgSel{Type: "Snap", To: f})
+	d.pipeline(f)
+	queued := func() bool {
+		n := d.c.up(f)
+		if n == nil {
+			return true
+		}
+		for _, m := range n.AppendQ {
+			if m.GetSnapshot() != nil && m.GetSnapshot().GetMetadata().GetIndex() > 0 {
+				return true
+			}
+		}
+		return false
+	}
+	p := calm
+	p.Tick = 0
+	for k := 0; k < 20 && !queued(); k++ {
+		d.c.Do(Step{Act: "Tick", Node: l.ID})
+		d.with(p, 12)
+		d.reportStaleSnapshots()
+	}
+	dbg("snapshot-ack: snapshot write queued at f:", queued())
+	if !queued() && os.Getenv("VERIF_DEBUG_SC") != "" {
+		jl, jf := jNode(l.RN), jNode(d.c.Nodes[f].RN)
+		dbg("   leader", l.ID, jl.Role, "term", jl.Term, "first", jl.First, "last", jl.Last, "prs", fmt.Sprint(jl.Prs))
+		dbg("   f", f, "up", jf.Up, jf.Role, "term", jf.Term, "commit", jf.Commit, "applying", jf.Applying, "applied", jf.Applied, "last", jf.Last, "usnap", jf.USnap.Has, "appendQ", len(d.c.Nodes[f].AppendQ), "net", len(d.c.Net))
+	}
+	// a new term reaches f
+	var other uint64
+	for _, id := range d.others(l.ID) {
+		if id != f {
+			other = id
+		}
+	}
+	for k := 0; k < 3; k++ {
+		for t := 0; t < 12; t++ {
+			d.c.Do(Step{Act: "Tick", Node: other})
+		}
+		d.c.Do(Step{Act: "Campaign", Node: other})
+		d.with(p, 25)
+	}
+	d.unfreeze()
+	p.Tick = 8
+	d.with(p, 80)
+	for k := 0; k < 4; k++ {
+		d.reportStaleSnapshots()
+		d.with(p, 20)
+	}
 }
 
 // a configuration change is committed at follower f and handed to its (slow) apply thread; a second change
